@@ -61,12 +61,15 @@ def cache_dir():
     d = os.path.join(root, tree_hash())
     if not os.path.isdir(d):
         os.makedirs(d, exist_ok=True)
-    # bound disk use: keep the 3 most recent other trees
+    # bound disk use: other trees are dropped once they are older than 20 minutes and not among the 4 newest
     try:
+        os.utime(d, None)
+        now = time.time()
         others = sorted((e for e in os.scandir(root) if e.is_dir() and e.name != tree_hash()),
                         key=lambda e: e.stat().st_mtime, reverse=True)
-        for e in others[3:]:
-            shutil.rmtree(e.path, ignore_errors=True)
+        for e in others[4:]:
+            if now - e.stat().st_mtime > 1200:
+                shutil.rmtree(e.path, ignore_errors=True)
     except OSError:
         pass
     return d
